@@ -69,3 +69,67 @@ Print Assumptions C12_shrink_keeps_prefix.
 Print Assumptions C12_grow_zeroed_tail.
 Print Assumptions C12_err_keeps_old.
 Print Assumptions C12_deallocate_any_order.
+
+(* ---- tie to the source text: the expressions of Bump::dealloc / shrink / grow that move the finger,
+   choose the branch and size the copies are extracted from /repo/src/lib.rs on every run
+   (tools/rs2v.py -> LeafActual.v), evaluated by RustSem.eval, and equal the pieces from which the
+   model's dealloc / shrink / grow are assembled (ArenaSource.v) ---- *)
+From BV Require Import RustSem ConstsActual LeafActual LeafActualOk ArenaSource.
+From Coq Require Import String.
+Open Scope string_scope.
+Open Scope N_scope.
+
+Theorem C12_source_dealloc : forall m start ptr p l, pow2 m -> m < W -> ptr + l_size l + (m - 1) < W ->
+  call_fn src_fns (mem_env m start ptr) "dealloc_cond" [VN p; vlayout l] = Ret (VB (ptr =? p)) /\
+  call_fn src_fns (mem_env m start ptr) "dealloc_new_finger" [VN p; vlayout l] = Ret (VN (rup (ptr + l_size l) m)).
+Proof. exact src_dealloc_ok. Qed.
+
+Theorem C12_source_shrink : forall m start ptr p old new,
+  pow2 m -> pow2 (l_align new) -> m < W -> l_align new < W -> p < W -> l_size old + 1 < W ->
+  l_size new <= l_size old -> ptr + l_size old < W ->
+  let en := mem_env m start ptr in
+  let args := [VN p; vlayout old; vlayout new] in
+  call_fn src_fns en "shrink_align_raised" args = Ret (VB (l_align old <? l_align new)) /\
+  call_fn src_fns en "shrink_lucky" args = Ret (VB (p mod l_align new =? 0)) /\
+  call_fn src_fns en "shrink_fresh_copy_len" args = Ret (VN (l_size new)) /\
+  call_fn src_fns en "shrink_delta" args = Ret (VN (shrink_delta_of m old new)) /\
+  call_fn src_fns en "shrink_in_place_cond" args
+    = Ret (VB ((ptr =? p) && ((l_size old + 1) / 2 <=? shrink_delta_of m old new))) /\
+  call_fn src_fns en "shrink_new_finger" args = Ret (VN (ptr + shrink_delta_of m old new)) /\
+  call_fn src_fns en "shrink_in_place_copy_len" args = Ret (VN (l_size new)).
+Proof. exact src_shrink_ok. Qed.
+
+Theorem C12_source_grow : forall m start ptr p old new,
+  pow2 m -> m < W -> l_size old < W ->
+  let en := mem_env m start ptr in
+  let args := [VN p; vlayout old; vlayout new] in
+  call_fn src_fns en "grow_rounded_size" args = Ret (vtry (round_up_to (l_size new) m)) /\
+  call_fn src_fns en "grow_in_place_cond" args = Ret (VB ((l_align new <=? l_align old) && (ptr =? p))) /\
+  (forall ns, round_up_to (l_size new) m = Some ns -> l_size old <= ns ->
+     call_fn src_fns en "grow_delta" args = Ret (VN (ns - l_size old)) /\
+     call_fn src_fns en "grow_extra_layout" args
+       = Ret (if layout_ok (ns - l_size old) (l_align old)
+              then vlayout (mkLayout (ns - l_size old) (l_align old)) else VNone)) /\
+  call_fn src_fns en "grow_in_place_copy_len" args = Ret (VN (l_size old)) /\
+  call_fn src_fns en "grow_fresh_copy_len" args = Ret (VN (l_size old)).
+Proof. exact src_grow_ok. Qed.
+
+(* the model is assembled from exactly these values (shrink_delta_m = shrink_delta_of) *)
+Theorem C12_model_assembled_from_source_parts : forall k A b p old new l,
+  dealloc k b p l = dealloc_assembled k b (cur_ptr k b =? p) (rup (cur_ptr k b + l_size l) (k_malign k)) /\
+  shrink k A b p old new =
+    shrink_assembled k A b p new
+      (l_align old <? l_align new) (p mod l_align new =? 0) (l_size new)
+      ((cur_ptr k b =? p) && ((l_size old + 1) / 2 <=? shrink_delta_m (k_malign k) old new))
+      (cur_ptr k b + shrink_delta_m (k_malign k) old new) (l_size new) /\
+  grow k A b p old new =
+    grow_assembled k A b p new (round_up_to (l_size new) (k_malign k))
+      ((l_align new <=? l_align old) && (cur_ptr k b =? p)) (l_size old) (l_align old) (l_size old) (l_size old).
+Proof.
+  intros. split; [apply dealloc_is_assembled|]. split; [apply shrink_is_assembled | apply grow_is_assembled].
+Qed.
+
+Print Assumptions C12_source_dealloc.
+Print Assumptions C12_source_shrink.
+Print Assumptions C12_source_grow.
+Print Assumptions C12_model_assembled_from_source_parts.
